@@ -108,6 +108,14 @@ def run(tier):
         trivs = trivia_strings(rng, cfg, 60)
         tags = ("id", "inst", "ext", "uuid", "my/id")
         vals = [G.gen_value(rng, cfg, depth=rng.choice([2, 3, 4]), width=3, tags=tags) for _ in range(nvals)]
+        # identifiers made of bytes that are not ASCII letters (UTF-8 text, control bytes, 0x7F..0xFF): whatever the blank
+        # skipper's block path thinks of them, they are not blanks; lengths around one and two vector blocks
+        odd = ["日本語", "日本語日本語", "世界世界世界世界世界", "é" * 9, "ключ-значение-и-ещё", "\x01" * 18, "a\x02b\x03c\x04d\x05e\x06f\x07g\x08h", "\x0e\x0f\x10\x11" * 5,
+               "x" * 15 + "é", "€" * 6, "\U0001F600" * 5]
+        for nm in odd:
+            for form in (("vec", [("sym", None, nm)]), ("vec", [("kw", None, "a"), ("sym", None, nm), ("int", 2)]), ("map", [(("kw", None, nm), ("sym", None, nm))]),
+                         ("list", [("int", 1), ("sym", nm[:3], nm), ("int", 2)]), ("set", [("sym", None, nm), ("kw", None, nm)])):
+                vals.append(form)
         pairs = [render_pair(rng, v, cfg, trivs) for v in vals]
         # 8 = handler registry; +2 / +4 = default reader mode unwrap / error for tags without a handler
         for opt in (0, 8, 10, 12):
